@@ -1,37 +1,57 @@
-"""Evaluate one seeded change: usage eval_seed.py <seed id> <property> <worktree> <outdir> [extra props...]
+"""Evaluate one seeded change in isolation.  usage: eval_seed.py <seed id> <property> <source> [extra props...]
+
+<source> is a seeding agent's output directory (patch.diff, demo.py, notes.md) or an existing
+/verif/seeded/<seed id> directory.  Steps:
+0. a fresh worktree of /repo's CURRENT HEAD gets the patch (so fixes committed since the seed was written are in);
+   a private copy of /verif is made so that Gen/Corr/evidence of the live tree are not touched;
 1. demo.py must exit 0 with PYTHONPATH=/repo and non-zero with PYTHONPATH=<worktree>;
 2. the pinned test suite must still pass on the worktree (every stable_pass test of BASELINE.json);
-3. run ./check <property> (and extra props) with VERIF_REPO=<worktree>; record whether a VIOLATION is reported;
-4. store everything under /verif/seeded/<seed id>/ (patch.diff, demo.py, notes.md, meta.json)."""
+3. ./check <property> (and extra props) runs in the private copy with VERIF_REPO=<worktree>;
+4. results go to /verif/seeded/<seed id>/ (patch.diff, demo.py, notes.md, meta.json); scratch is removed."""
 import json, os, shutil, subprocess, sys, time, xml.etree.ElementTree as ET
 
-sid, prop, wt, out = sys.argv[1:5]
-extra = sys.argv[5:]
-dst = f"/verif/seeded/{sid}"
+sid, prop, src = sys.argv[1:4]
+extra = sys.argv[4:]
+VERIF = os.path.dirname(os.path.dirname(os.path.abspath(__file__)))
+dst = f"{VERIF}/seeded/{sid}"
 os.makedirs(dst, exist_ok=True)
-meta = {"seed": sid, "property": prop, "worktree_head": subprocess.check_output(["git", "-C", wt, "rev-parse", "--short", "HEAD"]).decode().strip()}
-patch = subprocess.check_output(["git", "-C", wt, "diff"]).decode()
-open(f"{dst}/patch.diff", "w").write(patch)
-for f in ("demo.py", "notes.md"):
-  if os.path.exists(f"{out}/{f}"):
-    shutil.copy(f"{out}/{f}", f"{dst}/{f}")
+for f in ("patch.diff", "demo.py", "notes.md"):
+  if os.path.abspath(src) != os.path.abspath(dst) and os.path.exists(f"{src}/{f}"):
+    shutil.copy(f"{src}/{f}", f"{dst}/{f}")
 
 def run(cmd, env=None, timeout=3000, cwd=None):
   e = dict(os.environ); e.update(env or {})
-  p = subprocess.run(cmd, shell=True, capture_output=True, text=True, timeout=timeout, env=e, cwd=cwd)
-  return p.returncode, (p.stdout + p.stderr)
+  try:
+    p = subprocess.run(cmd, shell=True, capture_output=True, text=True, timeout=timeout, env=e, cwd=cwd)
+    return p.returncode, (p.stdout + p.stderr)
+  except subprocess.TimeoutExpired as ex:
+    return 124, f"TIMEOUT {timeout}s"
+
+wt, pv = f"/tmp/ev_{sid}_wt", f"/tmp/ev_{sid}_verif"
+run(f"git -C /repo worktree remove --force {wt}"); shutil.rmtree(wt, ignore_errors=True); shutil.rmtree(pv, ignore_errors=True)
+rc, o = run(f"git -C /repo worktree add -f --detach {wt} HEAD")
+assert rc == 0, o
+meta = {"seed": sid, "property": prop, "repo_head": subprocess.check_output(["git", "-C", "/repo", "rev-parse", "--short", "HEAD"]).decode().strip()}
+rc, o = run(f"git apply {dst}/patch.diff || git apply --3way {dst}/patch.diff", cwd=wt)
+meta["patch_applies"] = rc == 0
+if rc != 0:
+  meta["kept"] = False; meta["patch_error"] = o[-500:]
+  json.dump(meta, open(f"{dst}/meta.json", "w"), indent=1); print(json.dumps(meta)); run(f"git -C /repo worktree remove --force {wt}"); sys.exit(1)
+run(f"rsync -a --exclude .git --exclude replays --exclude seeded --exclude 'build/*.lock' {VERIF}/ {pv}/")
 
 rc0, o0 = run(f"/venv/bin/python {dst}/demo.py", {"PYTHONPATH": "/repo"}, cwd="/tmp")
 rc1, o1 = run(f"/venv/bin/python {dst}/demo.py", {"PYTHONPATH": wt}, cwd="/tmp")
 meta["demo_on_repo_rc"], meta["demo_on_change_rc"] = rc0, rc1
 meta["demo_on_change_tail"] = o1[-600:]
+if rc0 != 0:
+  meta["demo_on_repo_tail"] = o0[-600:]
 # test suite
 t = time.time()
-rc, o = run(f"/venv/bin/python -m pytest -q -p no:cacheprovider --timeout=900 --continue-on-collection-errors --junitxml=/tmp/seed_{sid}.xml", cwd=wt, timeout=6000)
+rc, o = run(f"/venv/bin/python -m pytest -q -p no:cacheprovider --timeout=900 --continue-on-collection-errors -n 6 --junitxml=/tmp/ev_{sid}.xml", cwd=wt, timeout=6000)
 stable = set(json.load(open("/root/.vp/BASELINE.json"))["stable_pass"])
 passed = set()
 try:
-  for tc in ET.parse(f"/tmp/seed_{sid}.xml").getroot().iter("testcase"):
+  for tc in ET.parse(f"/tmp/ev_{sid}.xml").getroot().iter("testcase"):
     if not list(tc):
       passed.add(tc.get("classname") + "::" + tc.get("name"))
 except Exception as e:
@@ -41,12 +61,31 @@ meta["suite_seconds"] = round(time.time() - t)
 # checks
 meta["checks"] = {}
 for p in [prop] + extra:
-  rc, o = run(f"./check {p} --tier quick", {"VERIF_REPO": wt}, cwd="/verif", timeout=3000)
+  t = time.time()
+  rc, o = run(f"./check {p} --tier quick", {"VERIF_REPO": wt}, cwd=pv, timeout=3000)
   lines = [l for l in o.splitlines() if l.startswith("VIOLATION") or l.startswith("  ->") or l.startswith("[" + p)]
-  meta["checks"][p] = {"exit": rc, "violation": any(l.startswith("VIOLATION") for l in lines), "no_failing_input": any("no-failing-input-found" in l for l in lines), "lines": lines[:8]}
-meta["what_it_needs"] = ""
+  keys = []
+  for l in lines:
+    if l.startswith("VIOLATION") and "replay=" in l:
+      rp = l.split("replay=")[1].split()[0]
+      try:
+        r = json.load(open(rp)); keys.append({"key": r.get("key"), "what": str(r.get("what"))[:300]})
+      except Exception:
+        pass
+  meta["checks"][p] = {"exit": rc, "violation": any(l.startswith("VIOLATION") for l in lines),
+                       "no_failing_input": bool(lines) and all("no-failing-input-found" in l for l in lines if l.startswith("VIOLATION")) and any(l.startswith("VIOLATION") for l in lines),
+                       "seconds": round(time.time() - t), "violations": keys[:6], "lines": [l[:300] for l in lines[:8]]}
+old = {}
+try:
+  old = json.load(open(f"{dst}/meta.json"))
+except Exception:
+  pass
+meta["what_it_needs"] = old.get("what_it_needs", "")
 meta["kept"] = bool(rc0 == 0 and rc1 != 0 and not meta["stable_tests_broken"])
 json.dump(meta, open(f"{dst}/meta.json", "w"), indent=1)
-print(json.dumps({k: meta[k] for k in ("seed", "demo_on_repo_rc", "demo_on_change_rc", "stable_tests_broken", "kept")}), {p: (c["violation"], c["no_failing_input"]) for p, c in meta["checks"].items()})
-# restore Gen from /repo
-subprocess.run("PYTHONPATH=/repo:/verif/bin /venv/bin/python -c \"import gens\nfor g in gens.GENS.values():\n  try: g()\n  except Exception: pass\"", shell=True, capture_output=True, cwd="/verif")
+print(json.dumps({k: meta[k] for k in ("seed", "demo_on_repo_rc", "demo_on_change_rc", "stable_tests_broken", "kept")}), {p: (c["violation"], c["no_failing_input"]) for p, c in meta["checks"].items()}, flush=True)
+run(f"git -C /repo worktree remove --force {wt}"); shutil.rmtree(wt, ignore_errors=True); shutil.rmtree(pv, ignore_errors=True)
+try:
+  os.remove(f"/tmp/ev_{sid}.xml")
+except OSError:
+  pass
